@@ -22,7 +22,7 @@ ENGINES = [
      "kind_free_text": "observations of report generation validated by TLC against the report function"},
     {"name": "E9 cli", "path": "spec/Cli.tla + spec/MC_Cli.tla + spec/FsTrace.tla + harness/props_cli.py", "serves_properties": ["C19", "C20"],
      "kind_free_text": "spec -> code replay of every CLI situation; interleavings model-checked; strace logs validated"},
-    {"name": "E5 relate", "path": "spec/Relate.tla + harness/props_rel.py",
+    {"name": "E5 relate", "path": "spec/Relate.tla + spec/Attr.tla + harness/props_rel.py + harness/attrrun.py",
      "serves_properties": ["C09", "C14", "C15", "C16"],
      "kind_free_text": "relational obligations between traced runs decided by TLC"},
 ]
@@ -89,9 +89,9 @@ CLAIMS.update({
             "text": "renaming (awkward identifiers), relative/absolute paths, precedes, shift reference vs inline hours, three comment styles, macros with/without argument, all combined",
             "note": REL_NOTE},
     "C16": {"engine": "E5 relate", "design_ref": "DESIGN.md 5/C16",
-            "technique": "per-scenario sub-traces validated by TLC against the spec instance of the effective project; Relate.tla obligation scenario i == single-scenario rendering of its effective attributes",
-            "text": "1-4 scenarios, nesting, siblings, effort/start overrides, limits (counters must not carry over), overrides needing a longer horizon",
-            "note": REL_NOTE + " Pairs whose horizons differ while some task does not fit are excluded (all scenarios share one horizon); ASAP projects only."},
+            "technique": "per-scenario sub-traces validated by TLC against the spec instance of the effective project; Relate.tla obligation scenario i == single-scenario rendering of its effective attributes; Attr.tla: TLC enumerates every set of <= 2 (thorough 3) effort / start lines over a task tree x scenario tree, the resolution of the spec is compared with the real model builder for each (spec -> code), invariant OnlyThatScenario",
+            "text": "1-4 scenarios, nesting, siblings, effort/start/end overrides, limits (counters must not carry over), overrides needing a longer horizon, forward and backward projects (jit anchors, scenario-specific deadlines); 3 409 (thorough 61 081) projects of the Attr universe in two line orders",
+            "note": REL_NOTE + " Pairs whose horizons differ while some task does not fit are excluded (all scenarios share one horizon)."},
     "C17": {"engine": "E4 algebra", "design_ref": "DESIGN.md 5/C17",
             "technique": "laws ASSUMEd in Algebra.tla (checked by TLC on the bounded grid) + every recorded call of both implementations validated against the operators",
             "text": "IndexOf/TimeOf/Size/Clamp/Runs are TLA+ operators with their laws; all indices of bounded windows x 5 resolutions x start offsets and all predicate patterns <= 7/9 slots x windows x min lengths executed on the real functions and compared by TLC",
